@@ -83,6 +83,9 @@ pub struct World {
     pub steps: u64,
     /// per peer: layout of the last honest SendLastStateProof + number of requested difficulties
     pub last_layouts: HashMap<PeerIndex, (server::ProofLayout, usize)>,
+    /// every message delivered to the client (when `record_deliveries` is on), for history oracles
+    pub record_deliveries: bool,
+    pub delivered: Vec<(ProtocolId, PeerIndex, P2pBytes)>,
 }
 
 pub type Msg = (ProtocolId, PeerIndex, P2pBytes);
@@ -106,6 +109,8 @@ impl World {
             disconnect_log: vec![],
             steps: 0,
             last_layouts: HashMap::new(),
+            record_deliveries: false,
+            delivered: vec![],
         };
         w.boot();
         w
@@ -257,6 +262,9 @@ impl World {
     /// Delivers one message from `peer` to the client on `proto`.
     pub fn deliver(&mut self, proto: SupportProtocols, peer: PeerIndex, data: P2pBytes) {
         self.steps += 1;
+        if self.record_deliveries {
+            self.delivered.push((proto.protocol_id(), peer, data.clone()));
+        }
         let shared = Arc::clone(&self.shared);
         let c = self.cm();
         let nc = ctx(&shared, proto.clone());
